@@ -1,6 +1,6 @@
 """C14 — behaviour and bytes are independent of storage backend and node cache."""
 from repl import *
-import jsfmt, tempfile, shutil
+import jsfmt, os, tempfile, shutil
 
 
 def run_config(srv, script, disk_kind, cache):
@@ -77,6 +77,194 @@ def paged_memory_crosscheck(base, model, res, r, tier):
             break
 
 
+TOKIO_MAX_READ = 2097152     # tokio::fs::File reads at most max_buf_size = 2 MiB per read call
+
+
+def _unhex(h):
+    return b"" if h == "_" else bytes.fromhex(h)
+
+
+def disk_file_crosscheck(base, model, res, r, tier):
+    """DiskFile.v (model of random-access-disk 3.0.1 over a POSIX file, proved to refine the flat file of Storage.v:
+    DiskFileFacts.rad_refines_file / rad_session_refines_file) against the crate itself (as compiled into the harness: tokio, hole
+    punching) on a fresh file in the scratch directory, on random operation sequences with reopens (`o`) and with zero-length writes
+    beyond the end (the one place where disk and flat file part, DESIGN 11.4). Compared: every observation, the content read back
+    through the interface and the bytes of the file as the OS has them. The model driver also prints the `del`-writes-zeros variant
+    (default.rs), the flat-file answer and whether the sequence satisfies the premise `ops_tight` of the refinement theorem; the
+    theorem instances are checked here too."""
+    n = 250 if tier == "quick" else 5000
+    for k in range(n):
+        top = r.choice([8, 20, 60, 5000])
+        ops = []
+        for _ in range(r.randrange(1, 16)):
+            c = r.random()
+            off = r.choice([0, r.randrange(top + 3), r.randrange(top + 3)])
+            ln = r.choice([0, 1, r.randrange(top // 2 + 2), r.randrange(top // 2 + 2), r.randrange(12)])
+            if c < 0.38:
+                if ln == 0 and r.random() < 0.35:
+                    ln = 1 + r.randrange(5)     # keep most sequences inside the premise of the refinement theorem
+                ops.append("w:%d:%s" % (off, hexb(bytes(r.randrange(1, 256) for _ in range(ln)))))
+            elif c < 0.58:
+                ops.append("r:%d:%d" % (off, ln))
+            elif c < 0.76:
+                ops.append("d:%d:%d" % (off, ln))
+            elif c < 0.87:
+                ops.append("t:%d" % off)
+            elif c < 0.93:
+                ops.append("l")
+            else:
+                ops.append("o")
+        cmd = "diskx diskx_%d %s" % (k, " ".join(ops))
+        ia = base.cmd(cmd)
+        ma = model.cmd(cmd)
+        res.count("disk-file-sequences")
+        parts = [x.strip() for x in ma[3:].split("||")]
+        if not ma.startswith("ok ") or len(parts) != 4:
+            res.disagreements.append(dict(cmd=cmd[:300], impl=ia[:200], model=ma[:200]))
+            continue
+        mpunch, mzeros, mflat, tight = parts
+        if klass(ia) == "crash" or ia[3:].strip() != mpunch:
+            res.disagreements.append(dict(cmd=cmd[:400], impl=ia[:300], model="ok " + mpunch[:300], level="random-access-disk vs DiskFile.v"))
+        # instances of the theorems of DiskFileFacts.v (premise dop_read_fits: every read fits one read call of the runtime)
+        bad = None
+        if any(o.startswith("r:") and int(o.split(":")[2]) > TOKIO_MAX_READ for o in ops):
+            res.count("disk-file-sequences-read-above-cap")
+        elif tight == "tight=1":
+            res.count("disk-file-sequences-tight")
+            flat3 = mflat + " | " + mflat.split(" | ")[-1]
+            if mpunch != flat3 or mzeros != flat3:
+                bad = "rad_refines_file"
+        elif "o" not in ops:
+            res.count("disk-file-sequences-loose-one-session")
+            fobs, fcontent = mflat.rsplit(" | ", 1)
+            for m in (mpunch, mzeros):
+                obs, content, raw = m.rsplit(" | ", 2)
+                rawb, cb = _unhex(raw), _unhex(fcontent)
+                if obs != fobs or content != fcontent or rawb + bytes(len(cb) - len(rawb)) != cb:
+                    bad = "rad_session_refines_file"
+        else:
+            res.count("disk-file-sequences-loose-with-reopen")
+        if bad:
+            res.disagreements.append(dict(cmd=cmd[:400], impl="disk model: " + mpunch[:200] + " || " + mzeros[:200], model="flat file: " + mflat[:200],
+                                          level="DiskFile.v vs Storage.v (theorem instance %s)" % bad))
+        if len(res.disagreements) >= 3:
+            break
+
+
+def disk_capped_read_case(base, res):
+    """thorough tier only (the extracted model needs about a minute on 2 MiB lists): a read of more than 2 MiB on the real crate
+    against DiskFile.v with dc_read_cap = 2 MiB — both answer the first 2 MiB of the range followed by zeros (no error)."""
+    n = TOKIO_MAX_READ + 5
+    data = bytes((i * 7 + 1) % 251 + 1 for i in range(n))
+    cmd = "diskx diskx_cap w:0:%s r:3:%d" % (hexb(data), n - 3)
+    ia = base.cmd(cmd)
+    model = Server([MODEL_BIN], "model", {"HC_PRIM_HELPER": HARNESS_BIN, "OCAMLRUNPARAM": "s=64M"})
+    try:
+        ma = model.cmd(cmd)
+    finally:
+        model.close()
+    res.count("disk-file-read-above-cap")
+    mpunch = ma[3:].split("||")[0].strip()
+    if klass(ia) == "crash" or not ma.startswith("ok ") or ia[3:].strip() != mpunch:
+        res.disagreements.append(dict(cmd=cmd[:60] + "... r:3:%d" % (n - 3), impl=ia[:80] + " ... " + ia[-60:], model=ma[:80],
+                                      level="random-access-disk vs DiskFile.v (read above the 2 MiB cap)"))
+
+
+def disk_big_read_probe(base):
+    """A block larger than tokio's 2 MiB per-read cap must read back identically on every backend, before and after a reopen
+    (RandomAccessDisk::read issues ONE file.read and ignores its count — DiskFileFacts.capped_read_differs — so the crate must not
+    ask the disk backend for more than one read call delivers)."""
+    n = 3 * 1024 * 1024
+    data = bytes((i * 7 + 1) % 251 + 1 for i in range(n))
+    got = {}
+    for dk in ("ram", "file"):
+        base.cmd("reset"); base.cmd("disk D " + dk)
+        base.cmd("new W D writer cache=off")
+        base.cmd("append W " + hexb(data))
+        got[dk] = base.cmd("get W 0")
+        base.cmd("drop W")
+        if dk == "file":
+            base.cmd("open W D cache=off")
+            got["file-reopened"] = base.cmd("get W 0")
+            base.cmd("drop W")
+    if got["ram"] == got["file"] and got["file-reopened"] != got["ram"]:
+        got["file"] = got["file-reopened"]
+    if got["ram"] != got["file"]:
+        a = got["file"].split(" ")
+        first = None
+        if len(a) == 3:
+            b = _unhex(a[2])
+            first = next((i for i in range(min(len(b), n)) if b[i] != data[i]), None)
+        return [dict(key="disk:big-read", what="backend=file: get of a 3 MiB block differs from backend=ram (first differing byte %s); "
+                     "random-access-disk read() delivers at most one tokio read call (2 MiB), the rest of the buffer stays zero" % first,
+                     replay=dict(script=["disk D file", "new W D writer", "append W <3145728 bytes, byte i = (7 i + 1) mod 251 + 1>", "get W 0"]))]
+    return []
+
+
+def crash_recovery_on_disk(srv, res, r, tier):
+    """the same bytes on disk open to the same core on every backend — also when they are what a CRASH left: histories run on the
+    instrumented backend (which journals its storage operations), cut at crash points of the last call; the four stores as of each
+    cut are copied into real files and opened through random-access-disk, and into a fresh instrumented disk: observations must be
+    identical. Includes one batch whose oplog entry exceeds what one OS read call delivers (> 2 MiB), cut right after the entry
+    write (the whole oplog is read with one instruction when a core is opened)."""
+    found = []
+    histories = [["append W 6669727374", "append W " + " ".join(["%02x" % (1 + i % 250) for i in range(40000)])]]
+    for _ in range(2 if tier == "quick" else 12):
+        h = []
+        for _ in range(r.choice([2, 4, 6])):
+            c = r.random()
+            if c < 0.7 or not h:
+                h.append("append W " + " ".join(hexb(rnd_block(r)) for _ in range(r.choice([1, 2, 5]))))
+            elif c < 0.85:
+                h.append("clear W 0 1")
+            else:
+                h += ["drop W", "open W D"]
+        histories.append(h)
+    for hi, h in enumerate(histories):
+        srv.cmd("reset"); srv.cmd("disk D vec"); srv.cmd("new W D writer")
+        n0 = 0
+        for c in h:
+            n0, _ = parse_journal(srv.cmd("journal D 0"))
+            srv.cmd(c)
+        n1, _ = parse_journal(srv.cmd("journal D 0"))
+        nblocks = int(srv.cmd("info W").split(" ")[1])
+        srv.cmd("drop W")
+        cuts = list(range(n0, n1 + 1))
+        if len(cuts) > 6:
+            cuts = cuts[:3] + r.sample(cuts[3:-1], 2) + [cuts[-1]]
+        probes = ["info W"] + ["get W %d" % i for i in sorted(set([0, 1, nblocks // 2, max(nblocks - 1, 0), nblocks]))] + \
+                 ["has W %d" % i for i in sorted(set([0, max(nblocks - 1, 0), nblocks]))] + ["append W 7a", "info W"]
+        if hi == 0:
+            # the big batch: only the crash right after its oplog entry write (data write, entry write), and no further append
+            # (the recovered core would flush 80000 tree nodes one synced write at a time on the disk backend)
+            cuts = [n0 + 2]
+            probes = probes[:-2]
+        for cut in cuts:
+            obs = {}
+            for kind in ("vec", "file"):
+                srv.cmd("fork X D %d" % cut)
+                if kind == "file":
+                    a = srv.cmd("disk F file from=X")
+                    if a != "ok":
+                        found.append(dict(key="disk:copy", what="copying the crash state into files answered " + a, replay=dict(history=h[:6], cut=cut)))
+                        return found
+                disk = "X" if kind == "vec" else "F"
+                o = [klass(srv.cmd("open W %s cache=off" % disk))]
+                o += [klass(srv.cmd(c)) for c in probes]
+                srv.cmd("drop W")
+                obs[kind] = o
+            res.count("crash-states-opened-on-disk-backend")
+            if obs["vec"] != obs["file"]:
+                k = next(i for i in range(len(obs["vec"])) if obs["vec"][i] != obs["file"][i])
+                what = (["open"] + probes)[k]
+                found.append(dict(key="disk:crash-recovery", what="the stores as a crash left them (history %d, %d of %d storage operations of the last call done) open to "
+                                  "different cores: `%s` answers %s on the instrumented backend and %s on the disk backend" %
+                                  (hi, cut - n0, n1 - n0, what, obs["vec"][k][:70], obs["file"][k][:70]),
+                                  replay=dict(history=[c[:100] for c in h], cut_after=cut - n0, of=n1 - n0)))
+                return found
+    return found
+
+
 def overwrite_scenarios(base, nocache, model, res, r, tier):
     """Storage::open(.., overwrite = true) over storage that already holds a core (src/storage/mod.rs): the new core must behave,
     and leave the same bytes, as on fresh storage — on every backend, whatever the old core left (a never-appended core: empty tree
@@ -117,6 +305,12 @@ def overwrite_scenarios(base, nocache, model, res, r, tier):
 def main(tier, seed):
     res = Result("C14", tier, seed)
     res.gate = coq_gate("C14.v", clean=(tier == "thorough"))
+    # the disk model (DiskFile.v, DiskFileFacts.v) is extracted with the rest of the model (Extract.v) and its theorems are quoted by
+    # disk_file_crosscheck: compiled here in case props/C14.v does not import it
+    rc, out = run("timeout 900 make DiskFileFacts.vo", cwd=COQ)
+    if rc != 0:
+        res.gate["ok"] = False
+        res.gate["problems"].append("coq build of DiskFileFacts.vo failed:\n" + "\n".join(out.strip().split("\n")[-12:]))
     build_harness(); build_harness(cache_feature=True); build_model()
     r = random.Random(seed)
     scratch = tempfile.mkdtemp(prefix="hc_c14_")
@@ -128,6 +322,15 @@ def main(tier, seed):
         res.add_case(("overwrite",), True, sample="old core on the storage, then new core with overwrite=true: same as fresh storage")
         paged_memory_crosscheck(nocache, model, res, r, tier)
         res.add_case(("paged-memory",), True, sample="ramx <page size> <random write/read/del/truncate/len sequence>: crate vs PagedMem.v vs flat file")
+        disk_file_crosscheck(nocache, model, res, r, tier)
+        res.add_case(("disk-file",), True, sample="diskx <scratch dir> <random write/read/del/truncate/len/reopen sequence>: crate on a real file vs DiskFile.v (both del variants) vs flat file")
+        if tier == "thorough":
+            disk_capped_read_case(nocache, res)
+        # a block larger than one OS read call delivers (tokio: 2 MiB) on every backend
+        res.violations.extend(disk_big_read_probe(nocache))
+        res.add_case(("big-block",), True, sample="one 3 MiB block appended and read back (also after a reopen) on the vec / ram / file backends")
+        res.violations.extend(crash_recovery_on_disk(nocache, res, r, tier))
+        res.add_case(("crash-recovery-on-disk",), True, sample="crash states of writer histories (incl. a 40000-block batch: oplog entry > 2 MiB) copied into real files: the disk backend recovers the same core as the instrumented backend")
         n = 10 if tier == "quick" else 200
         for k in range(n):
             # script: a writer history with reads, then replication to a replica driven by the baseline run
